@@ -27,8 +27,9 @@ TRUSTED_BASE = [
 ]
 ASSUMPTIONS = ["Fock matrix elements of gates are not modelled (The Walrus / ops.py closed forms)"]
 MANIFEST_TEXT = ("Proved for all register sizes, target positions, states and parameter values: every GaussianModes update method (model regenerated "
-                 "from the source each run) leaves every N, M, alpha entry not involving a target mode unchanged; Fock axis-locality of "
-                 "gate application. Bosonic and Fock-channel spectator invariance: search only (partial).")
+                 "from the source each run) leaves every N, M, alpha entry not involving a target mode unchanged; allocation appends a vacuum mode uncorrelated "
+                 "with the rest and deletion touches nothing else; Fock gate / two-mode / channel application reads and writes only the target axes (FockAxes: "
+                 "33 theorems, exact integer-tensor correspondence). Bosonic spectators and post-states of preparations / measurements: search (partial).")
 
 GAUSS_NAMES = list(sfgen.GAUSSIAN_GATES) + list(sfgen.CHANNELS) + list(sfgen.PREPS)
 FOCK_NAMES = [x for x in GAUSS_NAMES if x not in ("ThermalLossChannel", "Thermal")] + ["Kgate", "Vgate", "CKgate", "Fock"]
